@@ -51,13 +51,13 @@ const KEYS: [&[u8]; 2] = [b"k1x", b"k2"];
 const PREFIX: &[u8] = b"k1";
 
 pub struct LiveNode {
-    router: iroh::protocol::Router,
-    docs: iroh_docs::protocol::Docs,
-    author: AuthorId,
-    blobs: iroh_blobs::store::mem::MemStore,
+    pub router: iroh::protocol::Router,
+    pub docs: iroh_docs::protocol::Docs,
+    pub author: AuthorId,
+    pub blobs: iroh_blobs::store::mem::MemStore,
 }
 
-async fn live_node(seed: u8) -> anyhow::Result<LiveNode> {
+pub async fn live_node(seed: u8) -> anyhow::Result<LiveNode> {
     use iroh::endpoint::presets;
     let ep = iroh::Endpoint::builder(presets::Minimal)
         .secret_key(iroh::SecretKey::from_bytes(&[seed; 32]))
@@ -290,7 +290,7 @@ pub async fn exec(nodes: &[LiveNode], hist: &[LEv], dec: bool, salt: u64, deadli
     let addr0 = nodes[0].router.endpoint().addr();
     let mut event_logs = vec![];
     let mut event_tasks = vec![];
-    if which == "C12" {
+    if which == "C12" || which == "C11" {
         for d in &docs {
             match event_log(d).await {
                 Ok((l, t)) => {
@@ -471,6 +471,38 @@ pub async fn exec(nodes: &[LiveNode], hist: &[LEv], dec: bool, salt: u64, deadli
             break;
         }
     }
+    if which == "C11" {
+        use iroh_docs::engine::LiveEvent;
+        // (S1) in a node's own record the sessions with one peer never overlap: a session is in
+        // progress from the moment the node dialed / accepted until it reports it finished
+        for (i, log) in event_logs.iter().enumerate() {
+            let evs = log.lock().unwrap();
+            let mut by_peer: std::collections::BTreeMap<[u8; 32], Vec<(n0_future::time::SystemTime, n0_future::time::SystemTime, String)>> = Default::default();
+            for ev in evs.iter() {
+                if let LiveEvent::SyncFinished(s) = ev {
+                    let (a, b) = if s.started <= s.finished { (s.started, s.finished) } else { (s.finished, s.started) };
+                    by_peer.entry(*s.peer.as_bytes()).or_default().push((a, b, format!("{:?}/{}", s.origin, if s.result.is_ok() { "ok" } else { "failed" })));
+                }
+            }
+            for (peer, mut v) in by_peer {
+                v.sort();
+                for w in v.windows(2) {
+                    if w[1].0 < w[0].1 {
+                        bad.push(("live_sessions_of_a_pair_do_not_overlap", witness("sessions"), format!("node {i} reports two sessions with peer {:02x}.. that were in progress at the same time: {} and {} (the second started {:?} before the first finished)", peer[0], w[0].2, w[1].2, w[0].1.duration_since(w[1].0).unwrap_or_default())));
+                    }
+                }
+            }
+        }
+        // (S4) nothing was in flight any more when the closing phase asked for sessions: a node
+        // that neither completes nor fails a single session although it is asked again and again
+        // is permanently marked busy (sessions that run and fail are not this property's business)
+        if !premise {
+            let any_report = logs.iter().any(|l| !l.lock().unwrap().is_empty());
+            if !any_report {
+                bad.push(("live_pair_is_ready_for_a_new_session", witness("closing"), format!("the nodes were asked for a session every 250 ms for {deadline:?} after all traffic had ended; no session was even reported as finished or failed")));
+            }
+        }
+    }
     if let (Some(i), true, true) = (policy_no, premise, quiet) {
         // the contents written elsewhere: fetched by the last node exactly when its policy selects the key
         let me = n - 1;
@@ -534,7 +566,7 @@ pub async fn exec(nodes: &[LiveNode], hist: &[LEv], dec: bool, salt: u64, deadli
     bad
 }
 
-fn runtime() -> tokio::runtime::Runtime {
+pub fn runtime() -> tokio::runtime::Runtime {
     tokio::runtime::Builder::new_multi_thread().worker_threads(2).enable_all().build().expect("runtime")
 }
 
@@ -573,6 +605,8 @@ pub fn run_live_family(ctx: &Ctx, report: &mut Report, which: &'static str) {
         ("C04", true) => vec![(2u8, 3usize), (3, 2)],
         ("C04", false) => vec![(2, 4), (3, 3)],
         ("C15", true) => vec![(2, 2)],
+        ("C11", true) => vec![(2, 3)],
+        ("C11", false) => vec![(2, 4), (3, 3)],
         ("C15", false) => vec![(2, 3), (3, 2)],
         (_, true) => vec![(2, 2), (3, 2)],
         (_, false) => vec![(2, 3), (3, 3)],
@@ -617,7 +651,7 @@ pub fn run_live_family(ctx: &Ctx, report: &mut Report, which: &'static str) {
                 }
                 let mut bad = exec(&ns, &hist, dec, ord, SHORT, &mut stats, which).await;
                 let mut rerun = false;
-                if bad.iter().any(|(o, _, _)| *o == "premise_not_met" || *o == "live_selected_content_is_fetched") {
+                if bad.iter().any(|(o, _, _)| *o == "premise_not_met" || *o == "live_selected_content_is_fetched" || *o == "live_pair_is_ready_for_a_new_session") {
                     // a loaded machine: once more, with a long deadline
                     rerun = true;
                     bad = exec(&ns, &hist, dec, ord ^ (1 << 39), LONG, &mut stats, which).await;
@@ -677,7 +711,7 @@ pub fn replay_live(case: &Value, which: &'static str) -> anyhow::Result<Option<(
         let ns = nodes(n).await?;
         let mut stats = Stats::default();
         let mut b = exec(&ns, &hist, dec, salt, SHORT, &mut stats, which).await;
-        if b.iter().any(|(o, _, _)| *o == "premise_not_met" || *o == "live_selected_content_is_fetched") {
+        if b.iter().any(|(o, _, _)| *o == "premise_not_met" || *o == "live_selected_content_is_fetched" || *o == "live_pair_is_ready_for_a_new_session") {
             b = exec(&ns, &hist, dec, salt ^ (1 << 39), LONG, &mut stats, which).await;
         }
         b.retain(|(o, _, _)| *o != "premise_not_met");
